@@ -22,7 +22,12 @@ CHAIN_FAULTS = [
     "C.int-not-yet", "C.root-expired", "C.sig-corrupt-leaf", "C.sig-corrupt-int", "C.int-missing", "C.int-not-ca",
     "C.self-signed-leaf", "C.evil-root-in-x5c", "C.signer-ca-before-reversed-genuine-chain",
     "C.impostor-root-copied-ski",
+    # a certificate that also carries a critical extension nobody knows: path validation refuses such a certificate by
+    # itself, and whatever else is wrong with the chain stays wrong
+    "C.leaf-unknown-critical-ext", "C.untrusted-issuer-and-unknown-critical-ext", "C.leaf-expired-and-unknown-critical-ext",
+    "C.sig-corrupt-leaf-and-unknown-critical-ext", "C.self-signed-leaf-and-unknown-critical-ext",
 ]
+UNKNOWN_CRITICAL_EXT = (x509.UnrecognizedExtension(x509.ObjectIdentifier("2.23.133.99.1"), b"\x05\x00"), True)
 # faults that only mean something when the chain has an intermediate (one is added if none was asked for)
 NEED_INTERMEDIATE = {"C.int-expired", "C.int-not-yet", "C.sig-corrupt-int", "C.int-missing", "C.int-not-ca"}
 
@@ -205,6 +210,10 @@ def build_chain(leaf_pubkey, *, leaf_subject: Optional[x509.Name] = None, leaf_e
     unknown = faults - set(CHAIN_FAULTS)
     if unknown:
         raise ValueError(f"unknown chain faults: {sorted(unknown)}")
+    SUFFIX = "-and-unknown-critical-ext"
+    if "C.leaf-unknown-critical-ext" in faults or any(f.endswith(SUFFIX) for f in faults):
+        leaf_extensions = list(leaf_extensions) + [UNKNOWN_CRITICAL_EXT]
+        faults = {f[: -len(SUFFIX)] if f.endswith(SUFFIX) else f for f in faults} - {"C.leaf-unknown-critical-ext"}
     base = base_time or now()
     n = max(n_intermediates, 1) if faults & NEED_INTERMEDIATE else n_intermediates
     root_key = root_key or keys.get("p384", 1)
